@@ -57,6 +57,7 @@ type c14type struct {
 	dec     func(b []byte) ([]c14field, error)
 	fixOffs []int // positions of 4-byte offsets in the fixed part
 	tableAt int   // position of an offset table of a list of variable-size items (-1 = none)
+	small   bool  // very large values: only a handful of cases
 }
 
 var c14types []*c14type
@@ -372,6 +373,9 @@ func c14bytes(c *Ctx, t *c14type, b []byte) {
 // ---------------------------------------------------------------- generators
 
 func c14lenGrid(r *Rng, max int) int {
+	if max >= 8192 && r.Intn(4) != 0 { // large byte fields: mostly small values, the boundary now and then
+		return r.Intn(300)
+	}
 	switch r.Intn(8) {
 	case 0:
 		return 0
@@ -672,7 +676,7 @@ func c14overRaw(c *Ctx, t *c14type) {
 		if !strings.HasPrefix(obs, "ok") || len(enc) < t.tableAt {
 			return
 		}
-		prefix := enc[:t.tableAt]
+		prefix := enc // the empty last list contributes no bytes: the raw list body goes right behind
 		mk := func(n, sz int) [][]byte {
 			l := make([][]byte, n)
 			for i := range l {
@@ -734,7 +738,14 @@ func c14replay(c *Ctx, lines []string) {
 			continue
 		}
 		if f[0] == "const" {
-			c14const(c, f[1])
+			if strings.HasPrefix(f[1], "digest_") {
+				c14forkedConsts(c)
+			} else {
+				c14const(c, f[1])
+			}
+			continue
+		}
+		if c14forkedReplay(c, f) {
 			continue
 		}
 		t := c14find(f[1])
@@ -788,7 +799,7 @@ func runC14(c *Ctx) {
 		c14replay(c, readReplayCases(c.Args[1]))
 		return
 	}
-	nv, nb := 110, 200
+	nv, nb := 90, 170
 	if c.Tier == "thorough" {
 		nv, nb = 1500, 4000
 	}
@@ -804,7 +815,19 @@ func runC14(c *Ctx) {
 	for _, k := range names {
 		c14const(c, k)
 	}
+	nv0, nb0 := nv, nb
 	for _, t := range c14types {
+		nv, nb = nv0, nb0
+		if t.small {
+			nv, nb = 4, 12
+		} else if c.Tier != "thorough" && c.N == 0 {
+			// shard the quick budget: types whose values are tens of kilobytes get fewer cases
+			for _, s := range t.fields {
+				if s.kind == 'B' && s.max >= 8192 {
+					nv, nb = nv0/3, nb0/3
+				}
+			}
+		}
 		// ---- values inside and just beyond each limit
 		var pool [][]byte
 		for i := 0; i < nv; i++ {
@@ -824,7 +847,7 @@ func runC14(c *Ctx) {
 			}
 			c14value(c, t, f)
 			if over < 0 {
-				if enc, _ := c14enc(t, f); enc != nil && len(enc) < 6000 {
+				if enc, _ := c14enc(t, f); enc != nil && (len(enc) < 6000 || t.small) {
 					pool = append(pool, enc)
 				}
 			}
@@ -863,6 +886,7 @@ func runC14(c *Ctx) {
 			}
 		}
 	}
+	c14forked(c)
 }
 
 func sortStrings(s []string) {
